@@ -79,50 +79,11 @@ impl Sink {
     }
 }
 
-fn run_c02(o: &Opts) {
-    let mut cap = cap::Capture::install();
-    let mut sink = Sink::new(o);
-    let mut runner = vm::VmRunner::new();
-    let mut rng = prng::Rng::new(o.seed ^ 0xC02);
-    let mut samples: Vec<String> = Vec::new();
-    let mut by_opcode = [0u64; 16];
-    let mut corpus_n = 0;
-    if o.shard == 0 {
-        for c in vm::corpus() {
-            let line = runner.run(&mut cap, &c);
-            sink.put(&c.request(), &line);
-            corpus_n += 1;
-        }
-    }
-    // every instruction word, `variants` machine states each; words are dealt to shards
-    let variants: u32 = if o.thorough { 32 } else { 3 };
-    for w in 0..=0xFFFFu32 {
-        if (w as usize) % o.nshards != o.shard {
-            continue;
-        }
-        let mut wrng = prng::Rng::new(o.seed.wrapping_mul(65537).wrapping_add(w as u64));
-        for variant in 0..variants {
-            let c = vm::gen_state(&mut wrng, w as u16, variant);
-            let line = runner.run(&mut cap, &c);
-            by_opcode[(w >> 12) as usize] += 1;
-            if samples.len() < 4 && rng.chance(1, 3000) {
-                samples.push(vm::sample_json(&c));
-            }
-            sink.put(&c.request(), &line);
-        }
-    }
-    let stats = format!(
-        "{{\"cases\":{},\"corpus\":{},\"variants_per_word\":{},\"by_opcode\":{:?},\"samples\":[{}]}}",
-        sink.n, corpus_n, variants, by_opcode, samples.join(",")
-    );
-    sink.finish(o, &stats);
-}
-
 fn main() {
     std::panic::set_hook(Box::new(|_| {}));
     let o = parse_opts();
     match o.prop.as_str() {
-        "C02" => run_c02(&o),
+        "C02" => vm::run(&o),
         other => {
             eprintln!("unknown property {other}");
             std::process::exit(2);
